@@ -94,6 +94,8 @@ class WorldT16 : public World
         // make secondaries likely
         for (auto& pr : ctx.problem["procs"])
         {
+            if (pr.contains("real"))
+                continue;  // real models (KN, Moller-Bhabha, annihilation) emit by themselves
             if (pr["inter"]["kmax"].get<int>() == 0 && rf.coin(0.8))
                 pr["inter"]["kmax"] = 1 + (int)rf.below(3);
             pr["inter"]["p_absorb"] = rf.uniform(0.1, 0.4);
